@@ -1214,8 +1214,68 @@ pub fn selftest(n: u64) -> i32 {
             agree += 1;
         }
     }
+    // part 2: generated linear AxCut programs (spills, multi-block objects, sharing, 64-bit
+    // literals, all operators) straight through the x86-64 back end
+    let (mut agree2, mut disagree2, mut skipped2, mut instr2) = (0u64, 0u64, 0u64, 0u64);
+    for i in 0..n {
+        let mut rng = Rng::keyed(seed, i, "selftest-axcut");
+        let g = crate::wgen::GenCfg::swarm(&mut rng, 26, 5, true, 60);
+        let prog = crate::wgen::gen_program(&mut rng, &g);
+        let args: Vec<i64> = (0..prog.defs[0].params.len()).map(|_| rng.range(-100, 100)).collect();
+        let ro = crate::refm::run(&prog, &args, 400_000);
+        if !matches!(ro.end, crate::refm::RefEnd::Exit(_)) {
+            skipped2 += 1;
+            continue;
+        }
+        let Ok(text) = crate::compile::emit(&prog, crate::compile::Backend::X86, 99) else {
+            skipped2 += 1;
+            continue;
+        };
+        let plan = EnvPlan::benign();
+        let Ok(lp) = x86::load(&text, plan.code_base) else {
+            skipped2 += 1;
+            continue;
+        };
+        let opts = ExecOpts { step_budget: 2000 * ro.steps + 10_000, check_heap: false, record_snaps: 0, print_hook: None };
+        let (out, _) = x86::exec(&lp, &args, &plan, &opts);
+        if out.viol.is_some() || out.result.is_none() {
+            skipped2 += 1;
+            continue;
+        }
+        instr2 += out.steps;
+        let mut want = Vec::new();
+        for c in &out.calls {
+            funref::render_i64(&mut want, c.newline, c.arg);
+        }
+        let want_status = (out.result.unwrap() & 0xff) as i32;
+        std::fs::write("q.s", nasm_to_gas(&text)).unwrap();
+        let drv = driver::generate_c_driver(args.len(), None);
+        let ok = Command::new("gcc").args(["-no-pie", "-w", "-o", "q.exe", drv.to_str().unwrap(), "io.c", "q.s"]).stderr(Stdio::null()).status().map(|s| s.success()).unwrap_or(false);
+        if !ok {
+            println!("selftest axcut #{i}: GNU as / gcc rejected the transliterated text");
+            disagree2 += 1;
+            continue;
+        }
+        let argv: Vec<String> = args.iter().map(|a| a.to_string()).collect();
+        let o = Command::new("./q.exe").args(&argv).output().unwrap();
+        let status = o.status.code().unwrap_or(-1);
+        if o.stdout != want || status != want_status {
+            disagree2 += 1;
+            println!(
+                "selftest axcut #{i}: native stdout {:?} status {} vs emulator stdout {:?} status {}",
+                String::from_utf8_lossy(&o.stdout).chars().take(80).collect::<String>(),
+                status,
+                String::from_utf8_lossy(&want).chars().take(80).collect::<String>(),
+                want_status
+            );
+        } else {
+            agree2 += 1;
+        }
+    }
     std::env::set_current_dir(old).unwrap();
     let _ = std::fs::remove_dir_all(&dir);
     println!("x86-64 emulator vs native CPU: {agree} programs agree, {disagree} disagree, {skipped} skipped, {instr} emulated instructions");
+    println!("x86-64 emulator vs native CPU on generated AxCut: {agree2} programs agree, {disagree2} disagree, {skipped2} skipped, {instr2} emulated instructions");
+    let disagree = disagree + disagree2;
     if disagree > 0 { 2 } else { 0 }
 }
